@@ -277,9 +277,6 @@ class CoordinateList(CompressionFormat):
     # get size of representation
     def getSize(self): 
         # self.printFiber()
-        if self.next_fmt != None and self.next_fmt.encodeUpperPayload():
-            assert(len(self.payloads) > 0)
-
         size = len(self.coords) + len(self.occupancies)
         # Don't need to store occupancies if lower level is U
         # if not isinstance(self.payloads[0], CompressionFormat):
